@@ -193,7 +193,9 @@ func (s *Schema) ValidateData(data []byte) error {
 		if err != nil {
 			return fmt.Errorf("failed to YAML unmarshal data for validation: %w", err)
 		}
-		data, err = json.Marshal(any)
+		// convert the document itself: marshaling the decoded map would turn
+		// all numbers into float64 and lose the precision of large integers
+		data, err = yaml.YAMLToJSON(data)
 		if err != nil {
 			return fmt.Errorf("failed to JSON remarshal data for validation: %w", err)
 		}
